@@ -190,6 +190,9 @@ package fs
 //@   at call copyDirectoryOnly: dest_dir: arg0 == parentDir.dstPath
 //@   at call copier.copyFileInfo: own_source_metadata: arg3 == parentDir.dstPath && created
 //@   at call copyXAttrs: own_source_xattrs: arg0 == parentDir.dstPath && arg1 == parentDir.srcPath && created
+// the full metadata step (owner, mode, times - copyFileInfo ends with the times) ran on this
+// directory before its xattrs are copied
+//@   at call copyXAttrs: metadata_applied_first: cnt(Utimes) > old(cnt(Utimes)) && arg(Utimes, 0) == parentDir.dstPath
 
 // content copy: the source is opened (follows links: callers only pass paths
 // that Lstat reported as regular files), the target created
